@@ -242,4 +242,6 @@ def run(repo, tier):
     res.floor('A1', 400)
     res.floor('A1-field', 10)
     res.exhaustive_rules = ['A1 over all public entry points x parameters']
+    from .common import run_no_overwrite_input
+    run_no_overwrite_input(repo, res, {m for m in repo.modules if '.tests' not in m})
     return res
